@@ -205,6 +205,29 @@ void Exec::after_event() {
   }
 }
 
+// C13, white-box: at every step the counters the limits speak about are within the limits
+void Exec::check_limits_whitebox() {
+  if (!w.bus_running()) return;
+  if (lim_cfg.max_completed_connections >= 0 && w.n_active() > lim_cfg.max_completed_connections)
+    fail("oracle:C13:active-connections", "%d registered connections with max_completed_connections=%ld", w.n_active(), lim_cfg.max_completed_connections);
+  if (lim_cfg.max_incomplete_connections >= 0 && w.n_incomplete() > lim_cfg.max_incomplete_connections)
+    fail("oracle:C13:incomplete-connections", "%d incomplete connections with max_incomplete_connections=%ld", w.n_incomplete(), lim_cfg.max_incomplete_connections);
+  std::map<unsigned, long> per_uid;
+  for (size_t i = 0; i < w.clients.size(); i++) {
+    int names = w.names_owned((int)i), rules = w.rule_count((int)i);
+    if (names >= 0 && lim_cfg.max_names_per_connection >= 0 && names > lim_cfg.max_names_per_connection)
+      fail("oracle:C13:names", "c%zu holds %d names with max_names_per_connection=%ld", i, names, lim_cfg.max_names_per_connection);
+    if (rules >= 0 && lim_cfg.max_match_rules_per_connection >= 0 && rules > lim_cfg.max_match_rules_per_connection)
+      fail("oracle:C13:rules", "c%zu holds %d match rules with max_match_rules_per_connection=%ld", i, rules, lim_cfg.max_match_rules_per_connection);
+    if (!w.bus_side_name((int)i).empty()) per_uid[w.C((int)i).creds.uid]++;
+  }
+  if (lim_cfg.max_connections_per_user >= 0)
+    for (auto &kv : per_uid)
+      if (kv.second > lim_cfg.max_connections_per_user)
+        fail("oracle:C13:per-user", "uid %u has %ld registered connections with max_connections_per_user=%ld", kv.first, kv.second, lim_cfg.max_connections_per_user);
+  counters["limit_invariant_checks"]++;
+}
+
 void Exec::connect_step(const Step &s) {
   simk::Creds cr;
   cr.uid = (unsigned)s.N(0, 0);
@@ -225,6 +248,17 @@ void Exec::connect_step(const Step &s) {
 void Exec::send_msg(int ci, wire::Msg m, long deliver, std::vector<int> fds) {
   bw::Client &c = w.C(ci);
   if (c.closed) return;
+  if (md.conns[(size_t)ci].expect_closed) return;   // a client the bus is about to drop says nothing more
+  if (lim_cfg.max_message_size >= 0 && (long)wire::marshal(m).size() > lim_cfg.max_message_size) {
+    // larger than the configured maximum: only this sender is disconnected, nothing of it is processed
+    for (int fd : fds) simk::real_close(fd);
+    w.queue_raw(ci, wire::marshal(m));
+    w.deliver(ci, -1);
+    md.conns[(size_t)ci].expect_closed = true;
+    md.conns[(size_t)ci].close_prop = "C13";
+    counters["probe:oversize_message_sent"]++;
+    return;
+  }
   w.queue_msg(ci, m, std::move(fds));
   if (deliver != 0) w.deliver(ci, deliver);
 }
@@ -245,6 +279,7 @@ void Exec::step(const Step &s) {
     w.bus_iterate(iters, (uint64_t)s.N(1, 1), profile_from(s, 2));
     oom_retry_possible = false;
     resolve_choices();
+    check_limits_whitebox();
     return;
   }
   if (t == "adv") { w.advance_ms(s.N(0, 0)); md.now_us = K->now_us; return; }
@@ -395,6 +430,19 @@ void Exec::sync_names() {
 void Exec::resolve_choices() {
   sync_names();
   for (auto &ch : pending_choices) {
+    if (ch.conn >= 0) {
+      // rules naming a vanished unique name: kept or dropped, nothing else
+      int actual = w.rule_count(ch.conn);
+      int have = (int)md.conns[(size_t)ch.conn].rules.size();
+      int doomed = (int)ch.rule_idx.size();
+      counters["choice:" + ch.id]++;
+      tr.ev("choice rules c%d actual=%d have=%d doomed=%d", ch.conn, actual, have, doomed);
+      if (actual < 0) continue;
+      if (actual == have - doomed) { md.resolve_rule_choice(ch.conn, ch.rule_idx, true); counters["choice:" + ch.id + ":dropped"]++; }
+      else if (actual == have) counters["choice:" + ch.id + ":kept"]++;
+      else fail("oracle:C07:rule-count", "c%d holds %d match rules in the bus, the model has %d (of which %d name the unique name that just vanished)", ch.conn, actual, have, doomed);
+      continue;
+    }
     std::vector<int> actual = actual_queue(ch.name);
     bool ok = false;
     for (auto &adm : ch.admissible) if (adm == actual) ok = true;
@@ -457,6 +505,7 @@ void Exec::compare_client(int ci) {
       const wire::Msg &o = c.got[cur].m;
       int hit = -1;
       std::string why, firstwhy;
+      bool sender_issue = false;
       // required items first, then optional ones
       for (int pass = 0; pass < 2 && hit < 0; pass++)
         for (size_t i = 0; i < g.items.size() && hit < 0; i++) {
@@ -468,7 +517,10 @@ void Exec::compare_client(int ci) {
             if (pre_left) continue;
           }
           if (bm::satisfies(md, e, o, &why)) hit = (int)i;
-          else if (firstwhy.empty()) firstwhy = e.what + ": " + why;
+          else {
+            if (firstwhy.empty()) firstwhy = e.what + ": " + why;
+            if (why.compare(0, 4, "C03:") == 0) sender_issue = true;
+          }
         }
       if (hit < 0 && take_floating(ci, o)) { cur++; continue; }
       if (hit < 0) {
@@ -476,12 +528,15 @@ void Exec::compare_client(int ci) {
         std::string want;
         std::string prop;
         for (size_t i = 0; i < g.items.size(); i++) if (!used[i] && !g.items[i].optional) { want += "[" + g.items[i].what + ": " + g.items[i].m.repr() + "] "; if (prop.empty()) prop = g.items[i].prop; }
+        // everything but the sender / injected fields fits some expectation: that is C03's statement
+        if (sender_issue) prop = "C03";
         fail("oracle:" + prop + ":wrong-message", "c%d received %s while the model expects %s(first mismatch: %s)", ci, o.repr().c_str(), want.c_str(), firstwhy.c_str());
       }
       used[(size_t)hit] = true;
       if (!g.items[(size_t)hit].optional) required_left--;
       counters["oracle_items_matched"]++;
       counters["matched:" + g.items[(size_t)hit].prop]++;
+      if (!g.items[(size_t)hit].finding.empty()) counters["finding:" + g.items[(size_t)hit].finding]++;
       cur++;
     }
     if (required_left > 0) {
@@ -524,7 +579,8 @@ void Exec::check_point(bool final) {
       fail("oracle:C10:unexpected-disconnect", "the bus closed well-behaved client c%d", c.idx);
     if (c.saw_eof) continue;
     if (k.expect_closed && !k.alive) continue;
-    if (k.expect_closed) fail("oracle:C18:not-disconnected", "c%d should have been disconnected by the bus", c.idx);
+    if (k.expect_closed && !w.accepted(c.idx)) continue;   // still in the listen backlog (incomplete-connection cap): nothing to close yet
+    if (k.expect_closed) fail("oracle:" + k.close_prop + ":not-disconnected", "c%d should have been disconnected by the bus", c.idx);
     if (c.hostile) { c.got_checked = c.got.size(); continue; }
     compare_client(c.idx);
   }
@@ -581,6 +637,12 @@ void Exec::setup() {
   if (lim.max_match_rules_per_connection >= 0) md.lim.max_match_rules_per_connection = lim.max_match_rules_per_connection;
   if (lim.max_replies_per_connection >= 0) md.lim.max_replies_per_connection = lim.max_replies_per_connection;
   md.lim.reply_timeout_ms = lim.reply_timeout;
+  if (lim.max_completed_connections >= 0) md.lim.max_completed_connections = lim.max_completed_connections;
+  if (lim.max_connections_per_user >= 0) md.lim.max_connections_per_user = lim.max_connections_per_user;
+  lim_cfg = lim;
+  lim.max_incomplete_connections = plan.C("lim.incomplete", -1);
+  lim_cfg = lim;
+  for (unsigned u = 1000; u < 1008; u++) { K->add_user("user" + std::to_string(u), u, u); K->add_group("group" + std::to_string(u), u); }
   std::string policy = plan.CS("policy", bw::kAllowAllPolicy);
   K->sut_read_limit = (int)plan.C("knob.read_limit", 0);
   w.start_bus(bw::make_bus_config(policy, lim), (int)plan.C("uniq.major", 0), (int)plan.C("uniq.minor", 0));
